@@ -628,6 +628,13 @@ def r36(ctx: Ctx) -> RuleReport:
                         an, en = owner_node(cfg2, pm2, app[0]), owner_node(cfg2, pm2, ext[0])
                         good = en in cfg2.reachable_from([an])
                         detail = ''
+                    # a generator:  yield (triple, push, epis)  followed by  yield from pops
+                    ys_ = [m for m in walk_local(pc.node) if isinstance(m, ast.Yield) and isinstance(m.value, ast.Tuple) and len(m.value.elts) == 3]
+                    yf_ = [m for m in walk_local(pc.node) if isinstance(m, ast.YieldFrom) and norm(m.value) == lst]
+                    if ys_ and yf_ and not ext:
+                        an, en = owner_node(cfg2, pm2, ys_[0]), owner_node(cfg2, pm2, yf_[0])
+                        good = en in cfg2.reachable_from([an])
+                        detail = ''
                     # data += [(triple, push, epis), *pops]
                     for m in walk_local(pc.node):
                         if isinstance(m, ast.AugAssign) and isinstance(m.op, ast.Add) and isinstance(m.value, ast.List) and len(m.value.elts) == 2 \
@@ -657,6 +664,7 @@ def r36(ctx: Ctx) -> RuleReport:
         outer2 = next((a for a in _ancestors(pm2, inner[0]) if isinstance(a, ast.For)), None)
         queued = {owner_node(cfg2, pm2, m) for m in walk_local(pc.node) if _recv_call(m, 'append') and m.args and isinstance(m.args[0], ast.Tuple)
                   and len(m.args[0].elts) == 3}
+        queued |= {owner_node(cfg2, pm2, m) for m in walk_local(pc.node) if isinstance(m, ast.Yield) and isinstance(m.value, ast.Tuple) and len(m.value.elts) == 3}
         queued |= {cfg2.node_of(m) for m in walk_local(pc.node) if isinstance(m, ast.AugAssign) and isinstance(m.op, ast.Add) and isinstance(m.value, ast.List)
                    and m.value.elts and isinstance(m.value.elts[0], ast.Tuple) and len(m.value.elts[0].elts) == 3}
         if outer2 is not None and queued:
@@ -1866,7 +1874,7 @@ def r124(ctx: Ctx) -> RuleReport:
     # names that stand for the stack top
     tops = {'stack[-1]'}
     for n in ast.walk(loop):
-        if isinstance(n, ast.Assign) and isinstance(n.targets[0], ast.Name) and norm(n.value).replace(' ', '') == 'stack[-1]':
+        if isinstance(n, ast.Assign) and isinstance(n.targets[0], ast.Name) and norm(n.value).replace(' ', '') in ('stack[-1]', 'stack[-1]ifstackelseNone'):
             tops.add(n.targets[0].id)
     stores = [n for n in ast.walk(loop) if isinstance(n, ast.Assign) and isinstance(n.targets[0], ast.Subscript) and norm(n.value).replace(' ', '') in tops
               and not norm(n.targets[0].value).startswith('stack')]
@@ -1886,6 +1894,19 @@ def r124(ctx: Ctx) -> RuleReport:
             rep.undecided(key, fi.loc(st), 'no test that the stack is not empty')
     if not stores:
         rep.undecided(f'{fi.fq}: the stack top is recorded as the context', fi.loc(loop), 'no store of stack[-1]')
+    # (c') every round either records a context or leaves the loop: a round that ends without a store and goes on lets the simulation run past a mismatch
+    if stores:
+        cfg_c = CFG(fi.node)
+        pm_c = ctx.repo.parent_map(fi.node)
+        head_c = cfg_c.node_of(loop)
+        snodes = {cfg_c.node_of(st) for st in stores}
+        skip_c = cfg_c.path_avoiding([(head_c, 'T')], {head_c}, lambda nd: nd.id in snodes)
+        if skip_c:
+            rep.violation(f'{fi.fq}: a triple whose candidates do not include the stack top ends the simulation', fi.loc(stores[0]),
+                          'a round of the loop can end without recording a context and the loop goes on (' + ' -> '.join(repr(cfg_c.nodes[x]) for x in skip_c[-3:])[:150] +
+                          '): after the first triple the open node did not write, the stack no longer corresponds to the triples, yet later triples are given contexts from it - '
+                          'for a graph without markers appears_inverted() then answers True for edges that were written forward, where the documented answer is unknown / False')
+            return rep
     # (c) the mismatch ends the loop
     for n in ast.walk(loop):
         if isinstance(n, ast.If) and any(f'{t_}notin' in norm(n.test).replace(' ', '') for t_ in tops):
